@@ -19,6 +19,6 @@ Print Assumptions c19_lock_unlock.
 Theorem c19_lock_frame : forall pr s p q, path_eqb p q = false ->
   vlookup (fst (step pr s (Lock p))) q = vlookup s q /\ vlookup (fst (step pr s (Unlock p))) q = vlookup s q.
 Proof.
-  intros pr s p q H. split; apply frame; try exact H; intros ? ? E; discriminate E.
+  intros pr s p q H. split; apply frame; try exact H; try (intros ? ? E; discriminate E); intros ? ? ? E; discriminate E.
 Qed.
 Print Assumptions c19_lock_frame.
